@@ -138,6 +138,7 @@ DEFAULT_CFG = {
                 "comment": 1, "create_uid": 1, "remove_many": 1, "reopen": 3, "gc": 2, "hold": 1, "release": 1, "observe": 1},
     "ws2": True,
     "prefix": [],
+    "prefixes": [],
 }
 
 
@@ -153,6 +154,8 @@ def program_strategy(draw, cfg=None):
     pool = [k for k in kinds for _ in range(weights[k])]
     n_ops = draw(st.integers(1, cfg["max_ops"]))
     ops = list(cfg["prefix"])
+    if cfg.get("prefixes"):
+        ops += list(draw(st.sampled_from(cfg["prefixes"])))
     # a short constructive prefix so that most programs have something to work on
     n_seed = draw(st.integers(0, 3))
     for kind in ["object", "data", "group"][:n_seed]:
